@@ -77,9 +77,10 @@ class SafeLearner(Learner):
         if not is_batch(actions) and not is_batch(context): return 'not'
 
         no_len         = lambda item: not hasattr(item,'__len__')
+        is_hint        = lambda item: any(k in item for k in ['action','action_prob','pmf'])
         is_all_dicts   = all(isinstance(p,dict) for p in pred)
         is_dict_col    = isinstance(pred,dict)
-        is_dict_col_kw = is_all_dicts and pred[0].keys() != pred[-1].keys() and len(pred)==2
+        is_dict_col_kw = is_all_dicts and pred[0].keys() != pred[-1].keys() and len(pred)==2 and is_hint(pred[0])
         is_dict_row    = is_all_dicts and pred[0].keys() == pred[-1].keys()
 
         if is_dict_col or is_dict_col_kw : return 'col'
@@ -202,7 +203,8 @@ class SafeLearner(Learner):
             return try_else(lambda: len(obj), 0)
         if out is None:
             raise CobaException("The given prediction was none and did not match the batch_size.")
-        if all(isinstance(p,dict) for p in out) and out[0].keys() != out[-1].keys(): #pragma: no cover
+        is_hint = lambda item: any(k in item for k in ['action','action_prob','pmf'])
+        if all(isinstance(p,dict) for p in out) and out[0].keys() != out[-1].keys() and is_hint(out[0]): #pragma: no cover
             out = out[0]
         if isinstance(out,dict):
             is_valid = expected_len == len_or_0(next(iter(out.values())))
